@@ -7,8 +7,15 @@ fn main() {
             std::fs::write(path, vgen::emit_crate_source(&specs)).expect("write");
             eprintln!("vgen: wrote {} functions to {}", specs.len(), path);
         }
+        Some("random") => {
+            let seed: u64 = args.get(2).and_then(|s| s.parse().ok()).expect("usage: vgen random <seed> <n> <out.rs> [registry]");
+            let n: usize = args.get(3).and_then(|s| s.parse().ok()).expect("n");
+            let path = args.get(4).expect("out");
+            let specs = vgen::random_corpus(seed, n, args.get(5).map(|s| s == "registry").unwrap_or(false));
+            std::fs::write(path, vgen::emit_crate_source(&specs)).expect("write");
+        }
         _ => {
-            eprintln!("usage: vgen static <out.rs>");
+            eprintln!("usage: vgen static <out.rs> | random <seed> <n> <out.rs> [registry]");
             std::process::exit(2);
         }
     }
